@@ -29,20 +29,20 @@ type Calib struct {
 }
 
 type Enum struct {
-	Rng         *mrand.Rand
-	RejectProb  float64 // probability of preceding a draw by rejected words
-	MaxRej      int
-	Chunk       []int // chunk plan for tapes
-	calib       map[uint32]*Calib
-	inCalib     bool
-	Unreachable []string
-	Policy      func(k int, n uint32) uint32 // index for draws beyond the plan (nil: 0)
-	OpaqueWords  []uint32    // words served to the first reads that no draw announced
-	OpaqueSeeded *mrand.Rand // source of further unannounced words (kept separate so that probes differ in one word only)
-	FailAtRead  int                          // >0: the random source fails at this Read call (after FailGot bytes)
-	FailGot     int
-	MaxDraws    int     // >0: abandon a run after this many draws
-	MaxProd     float64 // >0: abandon a run once the product of its bounds exceeds this (its mass is below 1/MaxProd)
+	Rng          *mrand.Rand
+	RejectProb   float64 // probability of preceding a draw by rejected words
+	MaxRej       int
+	Chunk        []int // chunk plan for tapes
+	calib        map[uint32]*Calib
+	inCalib      bool
+	Unreachable  []string
+	Policy       func(k int, n uint32) uint32 // index for draws beyond the plan (nil: 0)
+	OpaqueWords  []uint32                     // words served to the first reads that no draw announced
+	OpaqueSeeded *mrand.Rand                  // source of further unannounced words (kept separate so that probes differ in one word only)
+	FailAtRead   int                          // >0: the random source fails at this Read call (after FailGot bytes)
+	FailGot      int
+	MaxDraws     int     // >0: abandon a run after this many draws
+	MaxProd      float64 // >0: abandon a run once the product of its bounds exceeds this (its mass is below 1/MaxProd)
 }
 
 func NewEnum(seed int64) *Enum {
